@@ -186,8 +186,9 @@ def gen_line(rng, names, toks, ks, allow_bad=True):
         sep1 = rng.choice([" ", " ", "\t"])
         sep2 = rng.choice([" ", " ", "\t"])
         text = ",".join(h.s for h in hs) + sep1 + k.tname + sep2 + k.b64
-        if rng.random() < 0.2:
-            text += rng.choice([" ", "\t"]) + rng.choice(["user@host", "a comment, with words", "#x"])
+        if rng.random() < 0.3:
+            text += rng.choice([" ", "\t"]) + rng.choice(["user@host", "a comment, with words", "#x", "root@beta 2019",
+                                                          "c1\tc2 c3", "x", "ssh-rsa AAAA", "trailing "])
         if rng.random() < 0.1:
             text = rng.choice([" ", "\t", "  "]) + text + rng.choice(["", " ", "\t "])
         return text, (hs, k)
@@ -201,6 +202,67 @@ def gen_line(rng, names, toks, ks, allow_bad=True):
         h + " " + k.tname + " !!!!",
     ])
     return bad, None
+
+
+ENTRY, SKIP = "entry", "skip"
+GRAMMAR = [
+    # (label, builder(names, type, base64) -> line text, what the line is)
+    ("plain", lambda n, t, b: "%s %s %s" % (n, t, b), ENTRY),
+    ("tabs", lambda n, t, b: "%s\t%s\t%s" % (n, t, b), ENTRY),
+    ("tab-space", lambda n, t, b: "%s\t%s %s" % (n, t, b), ENTRY),
+    ("comment-1", lambda n, t, b: "%s %s %s root@host" % (n, t, b), ENTRY),
+    ("comment-3", lambda n, t, b: "%s %s %s root@host 2019 backup" % (n, t, b), ENTRY),
+    ("comment-tab", lambda n, t, b: "%s %s %s\tconsole" % (n, t, b), ENTRY),
+    ("tabs-comment-mixed", lambda n, t, b: "%s\t%s\t%s\tc1 c2\tc3" % (n, t, b), ENTRY),
+    ("comment-hash", lambda n, t, b: "%s %s %s # added by hand" % (n, t, b), ENTRY),
+    ("comment-looks-like-entry", lambda n, t, b: "%s %s %s other ssh-rsa AAAA" % (n, t, b), ENTRY),
+    ("comment-empty-fields", lambda n, t, b: "%s %s %s  x  " % (n, t, b), ENTRY),
+    ("leading-blanks", lambda n, t, b: "   %s %s %s" % (n, t, b), ENTRY),
+    ("leading-tab", lambda n, t, b: "\t%s %s %s" % (n, t, b), ENTRY),
+    ("trailing-blanks", lambda n, t, b: "%s %s %s \t " % (n, t, b), ENTRY),
+    ("leading-and-comment", lambda n, t, b: " \t%s\t%s %s me@here " % (n, t, b), ENTRY),
+    ("double-blank-before-key", lambda n, t, b: "%s %s  %s" % (n, t, b), SKIP),
+    ("two-fields", lambda n, t, b: "%s %s" % (n, t), SKIP),
+    ("commented-out", lambda n, t, b: "#%s %s %s" % (n, t, b), SKIP),
+    ("commented-out-indented", lambda n, t, b: "  # %s %s %s" % (n, t, b), SKIP),
+    ("unknown-type", lambda n, t, b: "%s ssh-foo %s c" % (n, b), SKIP),
+    ("double-blank-after-names", lambda n, t, b: "%s  %s %s" % (n, t, b), BAD),
+    ("marker-cert-authority", lambda n, t, b: "@cert-authority %s %s %s" % (n, t, b), BAD),
+    ("marker-revoked-comment", lambda n, t, b: "@revoked %s %s %s gone" % (n, t, b), BAD),
+]
+
+
+def grammar_cases(rng, keys):
+    """Directed grid over the line grammar of known_hosts.  Every variant is the line of a host that ALSO has a
+    second, plainly written entry with a different key of the same type, before or after it, so that a variant
+    line which is skipped, misparsed or wrongly accepted changes which key lookup()/check() report."""
+    cases = []
+    same = [[k for k in keys if k.tid == t] for t in (1, 2)]
+    for vi, (label, build, kind) in enumerate(GRAMMAR):
+        for order in (0, 1):
+            for form in ("plain", "hashed", "multi"):
+                for nl in ("\n", "\r\n") if (vi + order) % 3 == 0 else ("\n",):
+                    plains = rng.sample(HOST_POOL, 3)
+                    names = [Name(s, i + 1) for i, s in enumerate(plains)]
+                    h, other = names[0], names[1]
+                    tok = Name(ref_hash(h.s, bytes(rng.randrange(256) for _ in range(20))), 50)
+                    unknown = Name("nowhere.example.net", 40)
+                    k1, k2 = rng.sample(rng.choice(same), 2)
+                    k3 = rng.choice([k for k in keys if k.tid not in (k1.tid,)])
+                    vnames = {"plain": [h], "hashed": [tok], "multi": [other, h]}[form]
+                    vtext = build(",".join(n.s for n in vnames), k1.tname, k1.b64)
+                    vstruct = (vnames, k1) if kind == ENTRY else (None if kind == SKIP else BAD)
+                    shadow = ("%s %s %s" % (h.s, k2.tname, k2.b64), ([h], k2))
+                    third = ("%s,%s %s %s" % (other.s, h.s, k3.tname, k3.b64), ([other, h], k3))
+                    lines = [(vtext, vstruct), shadow] if order == 0 else [shadow, (vtext, vstruct)]
+                    lines.append(third)
+                    text = "".join(t + nl for t, _ in lines)
+                    hm = [(p.nid, tok.nid) for p in names + [unknown] if ref_lists(tok.s, p.s)]
+                    cases.append({"names": names, "toks": [tok], "unknown": unknown, "keys": [k1, k2, k3],
+                                  "hm": hm, "ops": [("load", (text, [st for _, st in lines]))],
+                                  "label": "grammar:%s/%s/%s%s" % (label, "first" if order == 0 else "second", form,
+                                                                   "/crlf" if nl != "\n" else "")})
+    return cases
 
 
 def gen_file(rng, names, toks, ks, allow_bad=True):
@@ -289,7 +351,9 @@ def describe(c):
     d = []
     for op in c["ops"]:
         if op[0] == "load":
-            d.append({"load": op[1][0]})
+            d.append({"load": op[1][0],
+                      "lines": [st if st is None or st == BAD else [[h.s for h in st[0]], st[1].tname, st[1].b64]
+                                for st in op[1][1]]})
         elif op[0] == "add":
             d.append({"add": [op[1].s, op[3], op[4].b64]})
         elif op[0] == "del":
@@ -374,6 +438,47 @@ def brute_force(ctx, snap, queries, keys, case_desc, where):
                          expected=want, observed=snap["checks"][qi][ki])
 
 
+def input_scan(ctx, before, struct, code, snap, queries, keys, case_desc, text, step):
+    """The table after load(file) against a scan of the INPUT file with the harness's own line grammar:
+    every entry line (whatever its separators, comment fields, surrounding blanks) up to the first
+    undecodable line must be visible, in file order, behind the entries that were there before; a name
+    dropped as a duplicate never changes the first listing entry of a type, so the effective key per
+    type, found / not found and check() are determined by `before ++ entry lines`."""
+    lines = list(before)
+    want_code = 0
+    for st in struct:
+        if st == BAD:
+            want_code = 101
+            break
+        if st is not None:
+            lines.append(([h.s for h in st[0]], st[1].tname, st[1].b64))
+    case = dict(case_desc, file=text, step=step)
+    if code != want_code:
+        ctx.fail("load-raises-or-not", "load() raised InvalidHostKey on a file whose key fields are all base64, or "
+                 "did not raise on one with an undecodable key field", case=case, expected=want_code, observed=code)
+        return
+    views = dict_views(snap)
+    for qi, q in enumerate(queries):
+        first = {}
+        for hs, t, b in lines:
+            if any(ref_lists(h, q) for h in hs):
+                first.setdefault(t, b)
+        exp = sorted(first.items()) if first else None
+        if views[qi] != exp:
+            ctx.fail("load-loses-or-misreads-entry-line", "after load() the keys lookup() reports for a host are not "
+                     "those of the first entry lines of the file that list it (an entry line was skipped, "
+                     "misparsed, or a skipped line was taken as an entry)",
+                     case=dict(case, host=q), expected=exp, observed=views[qi])
+            return
+        for ki, k in enumerate(keys):
+            want = first.get(k.tname) == k.b64
+            if snap["checks"][qi][ki] != want:
+                ctx.fail("load-then-check-wrong", "after load() check() is not true exactly for the first key of "
+                         "that type the file lists for the host", case=dict(case, host=q, key=[k.tname, k.b64]),
+                         expected=want, observed=snap["checks"][qi][ki])
+                return
+
+
 def dict_views(snap):
     out = []
     for lk in snap["lookups"]:
@@ -403,7 +508,10 @@ def impl_run(ctx, c, allkeys, tmp, load_cls=None):
             p = os.path.join(tmp, "kh%d" % i)
             with open(p, "w") as f:
                 f.write(op[1][0])
+            before = saved_lines(hk, sp)[1]
             code = try_load(hk, p)
+            input_scan(ctx, before, op[1][1], code, snapshot(hk, sp, queries, keys), queries, keys, desc,
+                       op[1][0], i)
             # oracle: loading the same file again changes nothing (also when load is aborted by
             # InvalidHostKey: it must abort again, at the same place)
             s1 = snapshot(hk, sp, queries, keys)
@@ -565,7 +673,12 @@ def run(ctx):
                 "whitespace; 28% blank/comment/too-few-fields/unknown-type/undecodable-key lines; 25% reload of an "
                 "earlier file; 6% lines that make load raise InvalidHostKey: marker lines, truncated base64, double "
                 "blank; 4% certificate lines), add (10% with a foreign key type), delete, SubDict set / delete, clear, "
-                "save+reload; every load is "
+                "save+reload; plus a directed grid over the known_hosts line grammar (22 line forms: tab/space separators, "
+                "one/several/tab-separated/empty comment fields, leading/trailing blanks, CRLF, commented-out, too few "
+                "fields, double blanks, @markers) x plain/hashed/multi-name x before/after a plainly written entry of "
+                "the same host and key type with another key; after every load the table is compared with a scan of "
+                "the INPUT file by the harness's own grammar (effective key per type, found/not found, check()); "
+                "every load is "
                 "followed by a second load of the same file in the implementation (oracle); a case is non-trivial "
                 "when distinct and its final table is not empty")
     ctx.trusted += ["model coq/Model/C41.v is hand-written; tied to paramiko/hostkeys.py by this differential run "
@@ -592,6 +705,7 @@ def run(ctx):
         f2 = ("a %s %s\na %s %s\n" % (k0.tname, k0.b64, k5.tname, k5.b64), [([a], k0), ([a], k5)])
         cases = [{"names": [a, b, c_], "toks": [], "unknown": Name("zz", 40), "keys": [k0, k5], "hm": [],
                   "ops": [("load", f)]} for f in (f1, f2)]
+        cases += grammar_cases(rng, keys)
         for _ in range(ncases):
             cases.append(gen_case(rng, keys))
         rows = []
@@ -600,7 +714,7 @@ def run(ctx):
             out, snap = impl_run(ctx, c, keys, d)
             shutil.rmtree(d, ignore_errors=True)
             rows.append((coq_case(c), out))
-            kinds = "+".join(sorted({op[0] for op in c["ops"]}))
+            kinds = "grammar-grid" if "label" in c else "+".join(sorted({op[0] for op in c["ops"]}))
             ctx.count(("case", coq_case(c)), nontrivial=len(snap["lines"]) > 0, kind=kinds)
             for op in c["ops"]:
                 ctx.dist["op:" + op[0]] = ctx.dist.get("op:" + op[0], 0) + 1
@@ -674,6 +788,12 @@ def replay(ctx, rep):
         extra.append(k)
         return k
 
+    def name_of(h):
+        if h not in by_s:
+            by_s[h] = Name(h, 200 + len(by_s))
+            names.append(by_s[h])
+        return by_s[h]
+
     ops = []
     used = []
     for op in case["ops"]:
@@ -681,13 +801,37 @@ def replay(ctx, rep):
             ops.append((op,))
         elif "load" in op:
             struct = []
-            for ln in op["load"].split("\n"):
-                parts = ln.strip().replace("\t", " ").split(" ")
-                if len(parts) >= 3 and parts[1] in TYPE_IDS and not ln.strip().startswith("#"):
+            if "lines" in op:
+                for st in op["lines"]:
+                    if st is None or st == BAD:
+                        struct.append(st)
+                    else:
+                        k = key_of(st[2])
+                        used.append(k)
+                        struct.append(([name_of(h) for h in st[0]], k))
+            else:
+                # older replay files: the harness's own reading of the text (one blank or tab separates fields)
+                for ln in op["load"].splitlines():
+                    ln = ln.strip()
+                    parts = ln.replace("\t", " ").split(" ")
+                    if not ln or ln.startswith("#") or len(parts) < 3:
+                        struct.append(None)
+                        continue
                     try:
-                        used.append(key_of(parts[2]))
+                        base64.decodebytes(parts[2].encode())
                     except Exception:
-                        pass
+                        struct.append(BAD)
+                        continue
+                    try:
+                        k = key_of(parts[2])
+                    except Exception:
+                        struct.append(None)
+                        continue
+                    if k.tname != parts[1] and not (parts[1].startswith("ssh-rsa-cert") and k.tname == "ssh-rsa"):
+                        struct.append(None)
+                        continue
+                    used.append(k)
+                    struct.append(([name_of(h) for h in parts[0].split(",")], k))
             ops.append(("load", (op["load"], struct)))
         elif "add" in op:
             h, tname, b64 = op["add"]
